@@ -303,7 +303,10 @@ def finally_clean(run, model, rule="C11.finally-clean"):
                             bad = (sub, "control transfer `%s` inside finally swallows the pending exception / replaces the result" % first_line(sub))
                     if bad:
                         break
-                    # every statement must be a marker give-back
+                    # a plain rebinding of a local to a local or a constant cannot raise (bindings made by inlining)
+                    if isinstance(s, (ast.Assign, ast.AnnAssign)) and isinstance(s.value, (ast.Name, ast.Constant)) and all(isinstance(t, ast.Name) for t in (s.targets if isinstance(s, ast.Assign) else [s.target])):
+                        continue
+                    # every other statement must be a marker give-back
                     nodes = [n for n in flow.cfg.nodes if n.stmt is s]
                     kinds = set(ev["kind"] for n in nodes for ev in events.get(n.id, []))
                     if not nodes or not kinds or not kinds <= {"RESTORE", "REMOVE", "CTX_GET"}:
